@@ -60,6 +60,8 @@ Step(e) ==
     \/ e.op = "vwrite"   /\ VWriteOk(e.bufs, e.ok, e.total, e.dst) /\ Pure
     \/ e.op = "par_read" /\ ParReadOk(e.src, e.reqs, e.got) /\ Pure
     \/ e.op = "inorder"  /\ InOrderOk(e.in, e.ok, e.out) /\ Pure
+    \* 5 async blob store at quiescence
+    \/ e.op = "as_quiesce" /\ AsQuiesce(e.puts, e.removed, e.final, e.contains, e.reads, e.gb, e.len) /\ Pure
     \/ e.op = "note"     /\ Pure
 
 TraceNext ==
